@@ -8,6 +8,7 @@ import c01
 
 TRUSTED = c01.TRUSTED
 Z = Fraction(0)
+GROSS_JUDGED = {"without surcharges": 0, "with surcharges": 0}   # documents the gross-identity clause was judged on
 
 
 def q(a):
@@ -109,14 +110,25 @@ def judge_tax(doc, t, py):
         ncat = len(cats)
         if abs(q(t[16]) - tsum) > (Z if exact else unit * ncat):
             bad.append(("the tax total adds ordinary categories and subtracts retained ones including surcharges", "%s vs %s" % (q(t[16]), tsum)))
-    # prices include a tax and no other tax applies: total with tax = gross sum of the lines
+    # prices include a tax and no other tax applies: total with tax = gross sum of the lines; surcharges of the
+    # included category are computed on the tax-exclusive base and come on top of the gross sum
+    # (Props/C02.v included_tax_gross_identity_with_surcharges; without surcharges: ..._partial)
     if pit and t[15]:
-        only = all(all(tx["cat"] == pit and not tx.get("surcharge") and "+eqs" not in tx.get("rate", "") for tx in taxes) for _, taxes, _e in rows)
-        if only and all(ct[4] == [] for ct in t[15]):
+        only = all(all(tx["cat"] == pit for tx in taxes) for _, taxes, _e in rows)
+        if only:
+            surs = [q(ct[4]) for ct in t[15] if ct[4] != []]
+            GROSS_JUDGED["with surcharges" if surs else "without surcharges"] += 1
             gross = q(t[1]) - (q(t[2]) or Z) + (q(t[3]) or Z)
-            tol = Z if exact else unit * 2
-            if abs(q(t[7]) - gross) > tol:
-                bad.append(("with an included tax and no other tax, total with tax equals the gross sum of the lines", "%s vs %s" % (q(t[7]), gross)))
+            # precise rule: sum, discount, charge and the total are each presented rounded (half a unit each); so is the
+            # surcharge, and with a surcharge the amount is taken out and amount + surcharge put back at the gross
+            # sum's precision (at least two decimals more than the currency when there are lines)
+            tol = Z if exact else (unit * 2 + (unit / 2 + unit / 100 if surs else Z))
+            if abs(q(t[7]) - gross - sum(surs, Z)) > tol:
+                if surs:
+                    bad.append(("with an included tax and no other tax, total with tax equals the gross sum of the lines plus the surcharges",
+                                "%s vs %s + %s" % (q(t[7]), gross, sum(surs, Z))))
+                else:
+                    bad.append(("with an included tax and no other tax, total with tax equals the gross sum of the lines", "%s vs %s" % (q(t[7]), gross)))
     return bad
 
 
@@ -528,6 +540,7 @@ def run(c):
                      "process and once more from the serialised result; the same clauses judged on every carried summary that comes out; "
                      "distinct non-trivial there = distinct carrying documents with a surcharge or at least two groups in a carried summary")
     c.cov["documents_with_failing_clause"] = nbad
+    c.cov["gross_identity_clause_judged"] = dict(GROSS_JUDGED)
     if not proved:
         pr = c.proof
         c.report("proof obligations of Props/C02.v no longer check: " + (pr.get("make_log") or pr.get("log", ""))[-600:],
